@@ -51,9 +51,10 @@ pub struct Assertion { pub value: Value }
 #[verifier::external_body] pub fn single_child(n: &Node) -> (r: Node) requires node_children(n).len() == 1 ensures r == node_children(n)[0] { unimplemented!() }
 """
 
-COMMON = [
+COMMON = parser_idioms() + [
     Rule("R6", "input . children ( ) . single ( ) . unwrap ( )", "single_child ( & input )", why="pest API: the single child (R8: exactly one child, from the grammar)"),
     Rule("R6", "input . children ( )", "children ( & input )", why="pest API abstract"),
+    Rule("R6", "$n . children ( )", "node_kids ( & $n )", why="pest API abstract"),
     Rule("R8", "children . next ( ) . unwrap ( )", "unwrap_node ( children . next ( ) )", why="unwrap on a child: panic precondition (grammar child count)"),
     Rule("R8", "children . next ( ) . expect ( $m )", "unwrap_node ( children . next ( ) )", why="expect on a child: panic precondition (grammar child count)"),
     Rule("R6", "input . user_data ( ) . return_statement_expected_yield_type ( ) . map_or_else ( || ScopeReturnStatus :: No , | ty | ScopeReturnStatus :: ParentShould ( ty . clone ( ) ) , )",
